@@ -311,6 +311,21 @@ func genScenario(r *h.Run) scenario {
 		a.Garbage = true
 		note += " top-level-non-zip"
 	}
+	if r.Rng.Intn(25) == 0 { // two file entries of the same archive share a name: the second overwrites the first
+		var idx []int
+		for i, e := range a.Entries {
+			if !e.Dir {
+				idx = append(idx, i)
+			}
+		}
+		if len(idx) >= 2 {
+			i, j := idx[r.Rng.Intn(len(idx))], idx[r.Rng.Intn(len(idx))]
+			if i != j && a.Entries[i].Nested == nil && a.Entries[j].Nested == nil {
+				a.Entries[j].Name = a.Entries[i].Name
+				note += " overwrite"
+			}
+		}
+	}
 	if r.Rng.Intn(4) == 0 {
 		if k := g.addLie(&a); k != "" {
 			note += " lie=" + k
